@@ -7,7 +7,8 @@ import Mdsort.Proofs.WorldDryLog
 under the fault-free plan the dry run performs a subset of the fallible steps of the real run -
 
 * common to both: the configuration is valid; every configured path, path + `/new` and path + `/cur` fits;
-  `new` and `cur` can be opened; `readdir`; for every message met: the registry knows it, `message_parse`
+  `new` and `cur` can be opened (the real run opened them, and no call of a maildir-mode run creates or removes
+  a directory: `dryT_real_dirs`); `readdir`; for every message met: the registry knows it, `message_parse`
   (open, read, the path and the name fit, the flag suffix is valid), the evaluation of the rules and the
   interpolation of the action strings (the verdict, a function of directory, name and content that does not
   depend on `-d`: `dryT_verdict_isErr`);
@@ -645,15 +646,33 @@ def dryT_dirsExist (conf : List ConfBlock) (w : World) : Prop :=
 theorem dryT_budget_none : World.Budget Plan.none 0 false :=
   ⟨fun _ _ _ => rfl, fun _ _ _ _ _ => rfl⟩
 
+/-- A real run (at most one fault) that ends without the error flag has opened every directory of the
+configuration; no call of a maildir-mode run creates or removes a directory (`dirsSame_mainP`): they all
+existed in the initial world. -/
+theorem dryT_real_dirs (env : PEnv) (orc : EvalOracles) (confOk : Bool) (conf : List ConfBlock) (files : Files) (input : Bytes)
+    (w : World) (plan : Plan) (hm : env.stdinMode = false) (hsyn : env.syntaxOnly = false) (hdry : env.dryrun = false)
+    (hnd : ∀ b ∈ conf, WholeNoDiscard env orc b.expr) (hreg : WholeReg w files)
+    (hG : exit0_Good ⟨env, orc, exit0_dirsOf conf, files, w⟩) (hp : World.SingleFault plan)
+    (he : (runPlan plan (mainP env orc confOk conf files input) w 0 []).1.2.error = false) : dryT_dirsExist conf w := by
+  have h1 := exit0_mainP' ⟨env, orc, exit0_dirsOf conf, files, w⟩ hG hm hsyn confOk conf input rfl
+    (fun b hb => exit0_step_real env orc b.expr hdry (hnd b hb)) hreg true
+  have h2 := dirsSame_mainP env orc confOk conf files input hm true w
+  rw [World.runPlan_eq] at he
+  obtain ⟨_, hq, hsame⟩ := World.wpS_sound plan (wpS_and h1 h2) hp.budget
+  intro D hD
+  rw [← hsame D]
+  exact (hq he).2 D hD
+
 /-- **If the real run ends with exit status 0, so does the dry run** (fault-free plan, maildir mode, rules
-without discard, no message visited twice, every configured `new` / `cur` directory exists). -/
+without discard, no message visited twice). -/
 theorem dry_exit_le_real (env : PEnv) (orc : EvalOracles) (confOk : Bool) (conf : List ConfBlock) (files : Files) (input : Bytes)
     (w : World) (hm : env.stdinMode = false) (hsyn : env.syntaxOnly = false) (hdry : env.dryrun = false)
     (hnd : ∀ b ∈ conf, WholeNoDiscard env orc b.expr) (hreg : WholeReg w files)
-    (hG : exit0_Good ⟨env, orc, exit0_dirsOf conf, files, w⟩) (hex : dryT_dirsExist conf w)
+    (hG : exit0_Good ⟨env, orc, exit0_dirsOf conf, files, w⟩)
     (hreal : (runPlan Plan.none (mainP env orc confOk conf files input) w 0 []).1.1 = 0) :
     (runPlan Plan.none (mainP { env with dryrun := true } orc confOk conf files input) w 0 []).1.1 = 0 := by
   have he := exit0_status_zero env orc confOk conf files input w Plan.none hm hreal
+  have hex := dryT_real_dirs env orc confOk conf files input w Plan.none hm hsyn hdry hnd hreg hG World.singleFault_none he
   -- the configuration
   obtain ⟨hok, hfit⟩ : confOk = true ∧ ∀ b ∈ conf, ∀ p ∈ b.paths, isStdinPath p = false → dryT_Fits p := by
     have h := dryT_real_mainP env orc confOk conf files input hm hsyn true w
@@ -699,14 +718,14 @@ theorem dry_exit_le_real (env : PEnv) (orc : EvalOracles) (confOk : Bool) (conf 
 theorem dry_predicts_real2 (env : PEnv) (orc : EvalOracles) (confOk : Bool) (conf : List ConfBlock) (files : Files) (input : Bytes)
     (w : World) (hm : env.stdinMode = false) (hsyn : env.syntaxOnly = false) (hdry : env.dryrun = false)
     (hnd : ∀ b ∈ conf, WholeNoDiscard env orc b.expr) (hreg : WholeReg w files)
-    (hG : exit0_Good ⟨env, orc, exit0_dirsOf conf, files, w⟩) (hex : dryT_dirsExist conf w)
+    (hG : exit0_Good ⟨env, orc, exit0_dirsOf conf, files, w⟩)
     (hreal : (runPlan Plan.none (mainP env orc confOk conf files input) w 0 []).1.1 = 0) :
     (runPlan Plan.none (mainP { env with dryrun := true } orc confOk conf files input) w 0 []).1.1 = 0 ∧
     (runPlan Plan.none (mainP { env with dryrun := true } orc confOk conf files input) w 0 []).1.2.log =
       (runPlan Plan.none (mainP env orc confOk conf files input) w 0 []).1.2.log ∧
     (runPlan Plan.none (mainP env orc confOk conf files input) w 0 []).1.2.log =
       exit0_refDirs ⟨env, orc, exit0_dirsOf conf, files, w⟩ (exit0_dirsOf conf) := by
-  have hd := dry_exit_le_real env orc confOk conf files input w hm hsyn hdry hnd hreg hG hex hreal
+  have hd := dry_exit_le_real env orc confOk conf files input w hm hsyn hdry hnd hreg hG hreal
   exact ⟨hd, dry_predicts_real env orc confOk conf files input w hm hsyn hdry hnd hreg hG hreal hd⟩
 
 end Mdsort.Proofs
